@@ -366,7 +366,7 @@ def _pairs_maker(en, name, **kw):
 
 
 def _mcm_post(a, r, p):
-    reps = a.idx_repeated_seq.ref.reps if hasattr(a.idx_repeated_seq, "ref") else None
+    reps = getattr(getattr(a.idx_repeated_seq, "ref", None), "reps", None)
     if reps is None:
         seq = a.idx_repeated_seq
         exp, acc = [], -1
